@@ -22,6 +22,7 @@ type obligation struct {
 	goStep    int
 	answered  bool
 	closed    bool // a later position/go/ucinewgame/quit superseded it
+	closeStep int
 }
 
 // uciGUI is M-uci: what a GUI may expect from the lines it sent.
@@ -377,15 +378,19 @@ func SessionC04(t *tape.Tape) *core.RunResult {
 	}
 	finish := func() *core.RunResult {
 		// nothing is judged from here on: the clean-up runs everything free (not replayable)
-		s.teardown()
+		// digest and hash are taken before the clean-up, which runs everything free and is not replayable
 		res.Steps = s.steps
 		res.TraceHash = k.InterleavingHash()
+		ntrace := len(res.Trace)
+		defer func() { res.Trace = res.Trace[:ntrace] }()
+		hashBefore := k.InterleavingHash()
+		s.teardown()
 		res.NonTrivial = len(g.obs) >= 1 && k.evCount >= 10
-		res.Digest = fmt.Sprintf("%016x/%d", k.InterleavingHash(), g.seenLine)
+		res.Digest = fmt.Sprintf("%016x/%d", hashBefore, g.seenLine)
 		return res
 	}
 	if s.steps >= s.maxSteps || k.OverBudget() {
-		res.Inconclusive[map[bool]string{true: "evaluation-budget", false: "step-budget"}[k.OverBudget()]]++
+		res.Inconclusive[map[bool]string{true: map[bool]string{true: "ambiguous-timers", false: "evaluation-budget"}[k.Ambiguous], false: "step-budget"}[k.OverBudget()]]++
 		return finish()
 	}
 	// settle: the last go must be answered once it is told to stop / ends by itself
